@@ -104,6 +104,13 @@ func NewVerifyReader(r io.Reader, desc ocispec.Descriptor) *VerifyReader {
 			err: fmt.Errorf("failed to validate %s: %w", desc.Digest, err),
 		}
 	}
+	if desc.Size < 0 {
+		// a negative size would make the limited reader report EOF at once,
+		// so empty content would pass verification
+		return &VerifyReader{
+			err: fmt.Errorf("failed to validate size %d of %s: %w", desc.Size, desc.Digest, ErrInvalidDescriptorSize),
+		}
+	}
 	verifier := desc.Digest.Verifier()
 	lr := &io.LimitedReader{
 		R: io.TeeReader(r, verifier),
